@@ -120,6 +120,41 @@ class CopyAges(object):
         return H.observation_key(obs), vs, len(obs['log'])
 
 
+class RequestedByModuleName(object):
+    case_timeout = 10
+    name = 'requested-by-module-name'
+    describe = ('a file known to the sources under one name holds a module called differently (second module of a two-module file, '
+                'or a file named unlike its only module); the call names that MODULE as well as the file, in both orders, with / '
+                'without a borrower holding a copy under the module name, ignoreErrors on/off, noDeps on/off: the module is '
+                'compiled from the file and never replaced by the borrowed copy, whichever name is looked up first')
+
+    def blocks(self, tier):
+        return [{'k': k} for k in ('twomods', 'bundle', 'misnamed')]
+
+    def cases(self, block, tier):
+        k = block['k']
+        other = 'AREAL' if k == 'misnamed' else 'AX'
+        for req in ([other, 'A'], ['A', other], [other], ['A'], [other, 'A', 'B'], ['B', other, 'A']):
+            for bor in (None, 'has', 'error'):
+                for ie, nd in itertools.product([False, True], repeat=2):
+                    w = {'n': 2, 'edges': [], 'req': req, 'used': 0, 'text': {'A': k}}
+                    if bor:
+                        w['borrowers'] = [{'texts': False, 'ans': {other: bor}}]
+                    o = {}
+                    if ie:
+                        o['ignoreErrors'] = True
+                    if nd:
+                        o['noDeps'] = True
+                    if o:
+                        w['opts'] = o
+                    yield w
+
+    def run_case(self, case):
+        obs = H.run_world(case)
+        vs = H.judge(case, obs, 'C19|requested-by-module-name')
+        return H.observation_key(obs), vs, len(obs['log'])
+
+
 EXTS = ['', '.py', '.pyc', '.json', '.txt', '.mib', '.my', '.PY', '.JSON']
 
 
@@ -176,4 +211,4 @@ class FileBorrowers(object):
             shutil.rmtree(d, ignore_errors=True)
 
 
-FAMILIES = [BorrowerLists(), FileBorrowers(), CopyAges()]
+FAMILIES = [BorrowerLists(), FileBorrowers(), CopyAges(), RequestedByModuleName()]
